@@ -203,6 +203,10 @@ msg_save_start_end(const void *msg, const size_t bit_offset, const size_t bit_le
         const size_t blast = bit_offset + bit_length;
         const size_t bend = blast & 7; /* non-inclusive */
 
+        /* message ends on a byte boundary: no bits to preserve behind it */
+        if (bend == 0)
+                return;
+
         if (blast < 8) {
                 *save_end = msg_ptr[0] & mtab_shr[bend];
         } else {
